@@ -75,6 +75,71 @@ def real_path_texts(rng, n_fill, tier):
     return texts
 
 
+# ---- strings built by different producers inside programs (StrIdent.tla) ------------------------------------
+def route_expr(route, bs, off):
+    text = bytes(bs).decode()
+    n = len(text)
+    q = lambda t: '"%s"' % t
+    if route == "lit" or n == 0 and route in ("replace",):
+        return q(text)
+    if route == "cat":
+        k = off % (n + 1)
+        return "(%s + %s)" % (q(text[:k]), q(text[k:]))
+    if route == "slice":
+        return "%s[%d..%d]" % (q("X" * off + text + "YY"), off, off + n)
+    if route == "interp":
+        k = off % (n + 1)
+        return '"${%s}%s"' % (q(text[:k]), text[k:])
+    if route == "split":
+        return '%s.split(",")[1]' % q("X" * off + "," + text + ",Z")
+    if route == "replace":
+        return '%s.replace("#", %s)' % (q("#" + text[1:]), q(text[0]))
+    if route == "utf8":
+        return "String.from_utf8([%s])" % ", ".join(map(str, bs))
+    if route == "join":
+        return "rebuild(%s, %d)" % (q("X" * off + text), off)
+    raise ValueError(route)
+
+
+IDENT_PRELUDE = "fn rebuild(s, skip) { var out = \"\"; var i = 0; for ch in s { if i >= skip { out = out + ch; } i = i + 1; } return out; }\n"
+
+
+def ident_part(rep, binaries, tier):
+    cases = []
+    res = run_tlc("StrIdent", "StrIdent_%s.cfg" % tier, workers=6, timeout=3000, keep_lines=False, tag="c11ident",
+                  on_line=lambda t, o: cases.append(o) if t == "IDENT" else None)
+    if res.violation:
+        rep.violation("StrIdent.tla: TLC reports\n" + res.violation[:1500], {"tlc": res.violation})
+    per = 150
+    progs = []
+    for i in range(0, len(cases), per):
+        chunk = cases[i:i + per]
+        lines = [IDENT_PRELUDE]
+        for x in chunk:
+            c = x["c"]
+            lines.append("{ var a = %s; var b = %s; var m = {a: 1}; print(a == b); print(m.has_key(b)); print(b == a); }"
+                         % (route_expr(c["r1"], x["b1"], c["o1"]), route_expr(c["r2"], x["b2"], c["o2"])))
+        progs.append(("\n".join(lines) + "\n", chunk))
+    n = 0
+    for bname, binary in binaries:
+        items = [{"id": i, "main": src, "gc": "default"} for i, (src, _) in enumerate(progs)]
+        for (src, chunk), r in zip(progs, Pool(binary, "run", timeout=120).map(items)):
+            if "runs" not in r or not r["runs"][0].get("ok") or len(r["runs"][0]["out"]) != 3 * len(chunk):
+                rep.violation("string identity program did not run to its end (%s build): %r" % (bname, {k: r[k] for k in r if k != "events"}), {"source": src})
+                continue
+            out = r["runs"][0]["out"]
+            for j, x in enumerate(chunk):
+                n += 1
+                want = ["true" if x["equal"] else "false"] * 3
+                if out[3 * j:3 * j + 3] != want:
+                    c = x["c"]
+                    rep.violation("%s build: strings of %d bytes built by %s (offset %d) and %s (offset %d) with %s bytes: ==, map lookup, == reversed give %r, expected %r"
+                                  % (bname, c["len"], c["r1"], c["o1"], c["r2"], c["o2"], "the same" if c["same"] else "different", out[3 * j:3 * j + 3], want),
+                                  {"case": x, "a": route_expr(c["r1"], x["b1"], c["o1"]), "b": route_expr(c["r2"], x["b2"], c["o2"])})
+    log("[c11] StrIdent.tla: %d producer pairs (TLC %d states)" % (len(cases), res.distinct))
+    return n, res.distinct
+
+
 def main(tier, seed):
     rep = Report(PROP, tier, seed, "model_checking")
     rng = random.Random(seed)
@@ -87,6 +152,13 @@ def main(tier, seed):
                   coverage=False, tag="c11")
     if res.violation:
         rep.violation("InternTable.tla: TLC reports\n" + res.violation[:1500], {"tlc": res.violation})
+    # the same exhaustively over a pool whose probe chains run through the last two slots during rehashing
+    rest = run_tlc("MC_InternTable", "InternTable_top.cfg", workers=8, timeout=3000,
+                   on_line=lambda tag, obj: edges.append(obj) if tag == "EDGE" else None, keep_lines=False, tag="c11top")
+    if rest.violation:
+        rep.violation("InternTable.tla (top-of-table pool): TLC reports\n" + rest.violation[:1500], {"tlc": rest.violation})
+    res.distinct += rest.distinct
+    res.generated += rest.generated
     log("[c11] TLC exhaustive: %d generated, %d distinct, %d edges, %.1fs" % (res.generated, res.distinct, len(edges), res.wall))
     rep.coverage["states"] = res.distinct
     rep.coverage["transitions"] = res.generated
@@ -110,6 +182,11 @@ def main(tier, seed):
     nrep += len(hists)
     log("[c11] simulation: %d histories of 34 ops" % len(hists))
     rep.coverage["simulated_histories"] = len(hists)
+    # 2b. producers of equal strings inside programs
+    nid, sid = ident_part(rep, [("dev", binary), ("release", build_harness("release"))], tier)
+    nrep += nid
+    rep.coverage["states"] += sid
+    rep.coverage["producer_pairs"] = nid
     # 3. the real interning path, trace-validated by TraceIntern.tla
     ntraces = 0
     nevents = 0
